@@ -1459,6 +1459,7 @@ def run_wide(ctx, res, st):
 def run(ctx, res):
     from . import genarith
     genarith.regenerate(ctx.pid, "audit", res)   # regenerated tie: overstatement assorter, u bound, tally margins (DESIGN 2.1)
+    genarith.regenerate(ctx.pid, "samplesize_skeletons", res)   # whole-function skeletons: sample_size, interleave_values, find_sample_size (x3)
     import time
     st = {}
     res.stats = st
